@@ -407,7 +407,8 @@ pub fn run_program_on<W: Write>(
                 if p.stream_writer {
                     let data = p.bytes(i, l, s);
                     let mut sw = mla::helpers::StreamWriter::new(&mut w, ids[&i]);
-                    for piece in data.chunks(7) {
+                    // write sizes rotate with the operation index: 7 bytes, 1000 bytes, the whole piece at once
+                    for piece in data.chunks([7, 1000, usize::MAX][k % 3]) {
                         sw.write_all(piece).map_err(|e| format!("op {k} {} (StreamWriter): {e:?}", o.short()))?;
                     }
                 } else {
@@ -489,7 +490,8 @@ pub fn build_into_raw(p: &Program, cfg: &Cfg) -> Result<Vec<u8>, String> {
                 let data = p.bytes(i, l, s);
                 if p.stream_writer {
                     let mut sw = mla::helpers::StreamWriter::new(&mut w, ids[&i]);
-                    for piece in data.chunks(7) {
+                    // write sizes rotate with the operation index: 7 bytes, 1000 bytes, the whole piece at once
+                    for piece in data.chunks([7, 1000, usize::MAX][k % 3]) {
                         sw.write_all(piece).map_err(|e| format!("op {k} {} (StreamWriter): {e:?}", o.short()))?;
                     }
                 } else {
